@@ -947,6 +947,20 @@ func c01r6(c *Ctx) {
 						credits = true
 					}
 				}
+				if !credits && len(sc.Blocks) > 0 && reachesInvoke(c.P, sc, "AccountDataHandler.SaveKeyValue", 0) {
+					// a helper that obtains the destination account itself: it credits if it writes a balance key of an
+					// account that is not the sender's
+					for _, cs := range c.P.EffectSitesBelow(routine.Sub(call, sc), "save", isBalanceSave(c.P)) {
+						cc := cs.In.(ssa.CallInstruction)
+						ks := keyShape(cs.Env, cc.Common().Args[0], 0)
+						if ks == nil || ks.Prefix != balancePrefix(c.P) {
+							continue
+						}
+						if org := accountOrigin(cs.Env, writtenAccount(cc), 0); len(org) > 0 && !(len(org) == 1 && org[0] == "param:"+x.snd) {
+							credits = true
+						}
+					}
+				}
 				if credits {
 					passBlocks[b] = "credit at " + c.P.InstrPos(in)
 					continue
